@@ -366,6 +366,8 @@ func (x *c16X) doDeliver(o sim.Op) {
 	f := c16Mod(o.Int(1), 14)
 	a, b, cc := o.Int(2), o.Int(3), o.Int(4)
 	party, vmode, variant := o.Int(5), c16Mod(o.Int(6), 4), c16Mod(o.Int(7), 5)
+	x.via, x.at = c16Mod(o.Int(8), 5), c16Mod(o.Int(9), len(c16AtTimes)+1)
+	defer func() { x.via, x.at = 0, 0 }()
 	d := x.buildFault(m, f, a, b, cc, o.Bytes(0))
 	if d == nil {
 		d = x.byteAlter(m, a, b)
@@ -374,7 +376,7 @@ func (x *c16X) doDeliver(o sim.Op) {
 	if m.kind != c16KSign {
 		role = x.w.parties[x.resolveParty(m, party)].name
 	}
-	c.Abs("dlv", c16KindNames[m.kind], d.name, vmode, variant, role)
+	c.Abs("dlv", c16KindNames[m.kind], d.name, vmode, variant, role, x.via, x.at)
 	if d.altered {
 		c.Hit("fault:" + d.name)
 	} else if d.name == "ber" {
@@ -408,7 +410,7 @@ func (x *c16X) judge(m *c16Msg, d *c16Dlv, party, vmode, variant int) c16Res {
 	case c16KSign:
 		return x.judgeSigned(m, d, vmode)
 	case c16KEnv:
-		return x.judgeEnv(m, d, party, vmode, variant)
+		return x.judgeEnv(m, d, party, vmode, variant, x.via)
 	case c16KPsk:
 		return x.judgePsk(m, d, variant)
 	default:
@@ -538,6 +540,12 @@ func c16InWindow(sec int64) bool { return sec > c16NB && sec < c16NA }
 // expect tells whether an honest delivery of m must be accepted by the given verification mode now.
 func (x *c16X) expect(m *c16Msg, trust bool, atNow bool) bool {
 	now := time.Now().Unix()
+	if atNow && x.at > 0 {
+		now = c16AtTimes[x.at-1] // the explicit time handed to VerifyWithChainAtTime
+	}
+	if m.stripped {
+		return false // authenticated attributes removed after signing: the signature cannot fit
+	}
 	if !m.noattr && !c16InWindow(m.signSec) {
 		return false // the signing-time attribute lies outside the signer certificate's validity
 	}
@@ -575,7 +583,7 @@ func (x *c16X) judgeSigned(m *c16Msg, d *c16Dlv, vmode int) c16Res {
 	if d.supplied != nil {
 		supplied = d.supplied
 	}
-	p7, err := pkcs7.Parse(d.data)
+	p7, err, _, _ := x.parse(m, d.data, x.via)
 	c.OutErr("v.parse", err)
 	x.judged++
 	if err != nil {
@@ -586,6 +594,9 @@ func (x *c16X) judgeSigned(m *c16Msg, d *c16Dlv, vmode int) c16Res {
 	}
 	if honest && !m.detached && !bytes.Equal(p7.Content, m.content) {
 		x.fail("content-mismatch", "parsed content of an unaltered attached SignedData differs from the signed content at %d (%d vs %d bytes)", firstDiff(p7.Content, m.content), len(p7.Content), len(m.content))
+		return c16Res{}
+	}
+	if honest && !x.honestViews(m, p7) {
 		return c16Res{}
 	}
 	if m.detached || d.viaDetach {
@@ -620,6 +631,10 @@ func (x *c16X) judgeSigned(m *c16Msg, d *c16Dlv, vmode int) c16Res {
 		verr = cfca.VerifyMessageAttach(d.data)
 	case vmode == 2:
 		now := time.Now().UTC()
+		if x.at > 0 {
+			now = time.Unix(c16AtTimes[x.at-1], 0).UTC()
+			c.Hit("probe:verify-at-explicit-time")
+		}
 		verr = p7.VerifyWithChainAtTime(w.pool, &now)
 	case vmode == 1:
 		verr = p7.VerifyWithChain(w.pool)
@@ -627,15 +642,34 @@ func (x *c16X) judgeSigned(m *c16Msg, d *c16Dlv, vmode int) c16Res {
 		verr = p7.Verify()
 	}
 	c.OutErr("v", verr)
+	if explicit := vmode == 2 && !m.asDigest && x.at > 0; explicit {
+		at := c16AtTimes[x.at-1]
+		switch {
+		case at < c16NB || at > c16NA:
+			// every certificate of the run is valid from NotBefore to NotAfter only
+			if verr == nil {
+				x.fail("accepted-at-time-outside-validity", "VerifyWithChainAtTime(trust store, %d) accepted a SignedData (%s) although every certificate of the run is valid only from %d to %d", at, d.name, c16NB, c16NA)
+				return c16Res{}
+			}
+			c.Hit("probe:attime-outside-window-rejected")
+		case verr == nil && (at-c16NB < 2 || c16NA-at < 2):
+			c.Hit("probe:attime-edge-accepted")
+		}
+	}
 	if verr != nil {
 		if honest {
-			if x.expect(m, trust, vmode == 2 && !m.asDigest) {
+			if m.stripped {
+				c.Hit("probe:attr-removed-rejected")
+			} else if x.expect(m, trust, vmode == 2 && !m.asDigest) {
 				x.fail("honest-rejected", "unaltered SignedData (%s, signed at %d, now %d, mode %d, attrs=%v) does not verify: %v", d.name, m.signSec, time.Now().Unix(), vmode, !m.noattr, verr)
 			} else {
 				c.Hit("probe:honest-not-accepted-outside-window-or-trust")
 				eff := m.signSec
 				if m.noattr || (vmode == 2 && !m.asDigest) {
 					eff = time.Now().Unix()
+					if vmode == 2 && !m.asDigest && x.at > 0 {
+						eff = c16AtTimes[x.at-1]
+					}
 				}
 				switch {
 				case !m.noattr && m.signSec < c16NB, trust && eff < c16NB:
@@ -645,6 +679,10 @@ func (x *c16X) judgeSigned(m *c16Msg, d *c16Dlv, vmode int) c16Res {
 				}
 			}
 		}
+		return c16Res{}
+	}
+	if honest && m.stripped {
+		x.fail("attr-removed-still-verifies", "SignedData whose authenticated attributes were removed after signing (RemoveAuthenticatedAttributes) verifies: the accepted signer-infos carry no attributes, the signatures were made over attributes")
 		return c16Res{}
 	}
 	if honest {
@@ -756,6 +794,12 @@ func (x *c16X) acceptCheck(p7 *pkcs7.PKCS7, content []byte, asDigest, trust, hon
 
 // opener resolves certificate and key of an opening attempt.
 func (x *c16X) opener(m *c16Msg, party, certVariant int) (cert *smx509.Certificate, key crypto.PrivateKey, name string, keyOK, legitKey bool) {
+	cert, key, name, keyOK, legitKey, _ = x.opener2(m, party, certVariant)
+	return
+}
+
+// opener2 also tells which recipient-info (index into m.recips, -1: none) the presented certificate belongs to.
+func (x *c16X) opener2(m *c16Msg, party, certVariant int) (cert *smx509.Certificate, key crypto.PrivateKey, name string, keyOK, legitKey bool, ownerIdx int) {
 	w := x.w
 	op := x.resolveParty(m, party)
 	pt := w.parties[op]
@@ -765,12 +809,16 @@ func (x *c16X) opener(m *c16Msg, party, certVariant int) (cert *smx509.Certifica
 		owner = m.recips[c16Mod(certVariant-1, len(m.recips))]
 		cert = w.parties[owner].cert
 	}
-	for _, r := range m.recips {
+	ownerIdx = -1
+	for i, r := range m.recips {
 		if w.parties[r].keyID == pt.keyID {
 			legitKey = true
 		}
 		if r == owner && w.parties[owner].keyID == pt.keyID {
 			keyOK = true
+		}
+		if r == owner {
+			ownerIdx = i
 		}
 	}
 	return
@@ -809,9 +857,13 @@ func (x *c16X) judgeOpen(m *c16Msg, d *c16Dlv, what string, out []byte, err erro
 	return c16Res{ok: true, out: out}
 }
 
-func (x *c16X) judgeEnv(m *c16Msg, d *c16Dlv, party, api, variant int) c16Res {
-	cert, key, name, keyOK, legitKey := x.opener(m, party, variant)
-	legacy := m.flavour == 2 || m.flavour == 5
+func (x *c16X) judgeEnv(m *c16Msg, d *c16Dlv, party, api, variant, via int) c16Res {
+	cert, key, name, keyOK, legitKey, ownerIdx := x.opener2(m, party, variant)
+	// the key encoding of the recipient-info the presented certificate selects (of the first one for a stranger)
+	legacy := len(m.legacy) > 0 && m.legacy[0]
+	if ownerIdx >= 0 && ownerIdx < len(m.legacy) {
+		legacy = m.legacy[ownerIdx]
+	}
 	api = c16Mod(api, 3)
 	useCFCA := legacy
 	if api == 1 {
@@ -823,6 +875,9 @@ func (x *c16X) judgeEnv(m *c16Msg, d *c16Dlv, party, api, variant int) c16Res {
 	}
 	var out []byte
 	var err error
+	var used *c16Sess
+	asked := 0
+	sessionOK := m.sess == nil || !m.sess.masked
 	if api == 2 {
 		if legacy {
 			out, err = cfca.OpenEnvelopedMessageLegacy(d.data, cert, key)
@@ -831,8 +886,14 @@ func (x *c16X) judgeEnv(m *c16Msg, d *c16Dlv, party, api, variant int) c16Res {
 		}
 	} else {
 		var p7 *pkcs7.PKCS7
-		p7, err = pkcs7.Parse(d.data)
+		p7, err, used, sessionOK = x.parse(m, d.data, via)
 		if err == nil {
+			if !d.altered && !x.honestRecipients(m, p7) {
+				return c16Res{}
+			}
+			if used != nil {
+				asked = used.decCalls
+			}
 			if useCFCA {
 				out, err = p7.DecryptCFCA(cert, key)
 			} else {
@@ -840,7 +901,28 @@ func (x *c16X) judgeEnv(m *c16Msg, d *c16Dlv, party, api, variant int) c16Res {
 			}
 		}
 	}
-	return x.judgeOpen(m, d, "EnvelopedData opened by "+name, out, err, keyOK && matching, legitKey)
+	if err == nil && used != nil {
+		// the content key of an EnvelopedData is unwrapped by the session the consumer supplied
+		if used.failDec {
+			x.fail("session-error-swallowed", "Decrypt by %s returned %d bytes although the session's DecryptDataKey failed", name, len(out))
+			return c16Res{}
+		}
+		if used.decCalls == asked {
+			x.fail("session-not-consulted", "ParseWithSession(caller's session) + Decrypt by %s returned %d bytes without asking the session for the data key", name, len(out))
+			return c16Res{}
+		}
+		x.c.Hit("probe:session-consulted")
+		if b, ok := used.decOpts[len(used.decOpts)-1].(bool); ok && b == useCFCA {
+			x.c.Hit("probe:session-got-encoding-flag")
+		}
+	}
+	if m.sess != nil && !sessionOK {
+		x.c.Hit("probe:masked-session-message-opened-through-another-session")
+	}
+	if used != nil && used.failDec && err != nil && used.decCalls > asked {
+		x.c.Hit("fault:session-unwrap-error")
+	}
+	return x.judgeOpen(m, d, "EnvelopedData opened by "+name, out, err, keyOK && matching && sessionOK, legitKey && sessionOK)
 }
 
 func (x *c16X) judgePsk(m *c16Msg, d *c16Dlv, variant int) c16Res {
@@ -861,7 +943,7 @@ func (x *c16X) judgePsk(m *c16Msg, d *c16Dlv, variant int) c16Res {
 		key = []byte{}
 		right = false
 	}
-	p7, err := pkcs7.Parse(d.data)
+	p7, err, _, _ := x.parse(m, d.data, x.via)
 	var out []byte
 	if err == nil {
 		out, err = p7.DecryptUsingPSK(key)
@@ -882,9 +964,12 @@ func (x *c16X) judgeSed(m *c16Msg, d *c16Dlv, party, vmode, variant int) c16Res 
 	}
 	cert, key, name, keyOK, legitKey := x.opener(m, party, cv)
 	trust := vmode&1 == 1
-	p7, err := pkcs7.Parse(d.data)
+	p7, err, _, _ := x.parse(m, d.data, x.via)
 	var out []byte
 	if err == nil {
+		if !d.altered && !x.honestRecipients(m, p7) {
+			return c16Res{}
+		}
 		vf := func() error {
 			if trust {
 				return p7.VerifyWithChain(w.pool)
